@@ -21,6 +21,25 @@ CHECKS = {
             "numpy; the lattice (continuous values between lattice points are outside the bound)", "DESIGN.md §4 C10"),
 }
 
+CHECKS.update({
+    "C05": ("exploration",
+            "bounded-exhaustive lattice (family x parameter grid x call mode x argument kind x point grid) on the real "
+            "code against mpmath closed forms",
+            "All 10 families (7 shipped + 3 ScipyDistribution subclasses) over a multi-decade parameter grid; every "
+            "method, every call mode incl. every single-parameter override, every argument kind; judged against the "
+            "documented closed forms in 40-digit mpmath (value, monotonicity, support, both round trips, pdf = cdf "
+            "difference, explicit == constructed to 2e-15).",
+            "mpmath closed forms; scipy special functions trusted up to the stated bands (1e-9 rel.; von Mises 1e-7 "
+            "rel. + 1e-12 abs.)", "DESIGN.md §4 C05"),
+    "C08": ("exploration",
+            "bounded-exhaustive lattice (template x every fixed/dependent partition x shape x coefficient source x "
+            "given kind x method) on the real code against one-at-a-time template evaluation",
+            "Every family as template, every partition of its parameters, every shape assignment, four coefficient "
+            "sources (signature defaults, assigned, default 1, chained DependenceFunction), all broadcast shapes used "
+            "by IFORM/ISORM/HDC; reference is the template constructed with theta(g) computed from the raw functions.",
+            "template instances (anchored by C05)", "DESIGN.md §4 C08"),
+})
+
 NOT_APPLICABLE = {
 }
 
